@@ -15,7 +15,7 @@ Productions ==
    "func-composite-literals", "func-slice-index-exprs", "func-variadic-ellipsis", "func-literal-iife", "func-shadowing-scopes",
    "func-incdec-assignops", "func-pointer-star-addr", "func-type-assert-conversion", "type-func-chan-map-array", "func-named-results-bare-return",
    "func-if-else-init", "func-for-forms", "var-block-multi", "doc-comments", "func-generic", "type-generic", "type-generic-two-params",
-   "func-uses-imported-types", "func-struct-anonymous", "func-multi-assign-swap", "func-const-expr-shifts", "func-string-rune-literals", "func-required-parens",
+   "func-uses-imported-types", "func-struct-anonymous", "func-multi-assign-swap", "func-const-expr-shifts", "func-string-rune-literals", "func-required-parens", "embed-and-init",
    "type-alias", "func-renamed-local-and-inner-fresh-name", "method-named-like-the-injector", "func-three-index-slice-of-imported"}
 Contexts == {"plain", "alias-differs", "dot-import", "local-collides", "same-base-two-imports", "generated-alias-taken", "dot-import-same-package-name", "vendor-like-path-element"}
 
